@@ -224,6 +224,7 @@ def parseQOp (a : List String) : M QOp := do
   | "retmut" => return .retainMutAppend (← unh (← argAt a 1))
   | "clear" => return .clear
   | "len" => return .len
+  | "eqf" => return .eqFresh
   | "iter" => return .iter
   | "riter" => return .riter
   | "ends" => return .ends
@@ -259,7 +260,9 @@ def showQOut (op : QOp) : QOut → String
     | .insert .. => "OK:" ++ hS s
     | _ => hS s
   | .opt o => optS o
-  | .bool b => tf b
+  | .bool b => match op with
+    | .eqFresh => "eqf:" ++ tf b
+    | _ => tf b
   | .nat n e => toString n ++ (if e then "e" else "")
   | .err e => e.full
   | .pairs l => showPairs l
@@ -390,15 +393,28 @@ def parseBOp {τ : Type} (mk : String → M τ) (a : List String) : M (BOp τ) :
     return .pQual op
   | _ => .error s!"BADREQ bad builder step {name}"
 
-def parseBScript {τ : Type} (mk : String → M τ) (script : String) : M (List (BOp τ)) :=
+/-- a script step: a builder call, or `rb` = `build()` followed by `into_builder()` (none) -/
+def parseBScript {τ : Type} (mk : String → M τ) (script : String) : M (List (Option (BOp τ))) :=
   if script == "-" then .ok []
-  else (script.splitOn ";").mapM fun step => parseBOp mk (step.splitOn ":")
+  else (script.splitOn ";").mapM fun step =>
+    if step == "rb" then pure none else do return some (← parseBOp mk (step.splitOn ":"))
 
-/-- outputs of a builder script and the builder unless consumed -/
-def runBuilder {τ : Type} (b : GPurl τ) (ops : List (BOp τ)) : M (List String × Option (GPurl τ)) := do
+/-- outputs of a builder script and the builder unless consumed; `rebuild` is the shape's `build()` with its error
+rendered (`GenericPurl` and `GenericPurlBuilder` have the same fields, so `into_builder` is the identity) -/
+def runBuilder {τ : Type} (b : GPurl τ) (ops : List (Option (BOp τ)))
+    (rebuild : Option (GPurl τ → M (Except String (GPurl τ))) := none) : M (List String × Option (GPurl τ)) := do
   let mut b := b
   let mut outs : Array String := #[]
-  for op in ops do
+  for op? in ops do
+    match op? with
+    | none =>
+      match rebuild with
+      | none => throw "BADREQ rb not available here"
+      | some f =>
+        match ← f b with
+        | .ok p => outs := outs.push "rb"; b := p
+        | .error e => return ((outs.push e).toList, none)
+    | some op =>
     match op.apply U b with
     | .error (.panic _) => throw "PANIC"
     | .error (.err e) => return ((outs.push e.full).toList, none)
@@ -412,6 +428,12 @@ def runBuilder {τ : Type} (b : GPurl τ) (ops : List (BOp τ)) : M (List String
       b := b'
   return (outs.toList, some b)
 
+def rebuildOf {τ ε : Type} (io : ShapeIO τ ε) : Option (GPurl τ → M (Except String (GPurl τ))) :=
+  some fun b => do
+    match ← liftRes (io.build b) with
+    | .ok p => return .ok p
+    | .error e => return .error (io.full e)
+
 def mkStrTy (t : String) : M Str := unh t
 def mkCowB (t : String) : M CowStr := do return (false, ← unh t)
 def mkCowO (t : String) : M CowStr := do return (true, ← unh t)
@@ -421,10 +443,10 @@ def mkPkg (t : String) : M PkgType :=
   | none => .error s!"BADREQ unknown PackageType ident {t}"
 
 def opBuild {τ ε ε' τ' : Type} (io : ShapeIO τ ε) (mk : String → M τ) (re : ShapeIO τ' ε')
-    (ty name script : String) : M String := do
+    (ty name script : String) (hasParser : Bool := true) : M String := do
   let b : GPurl τ := ⟨← mk ty, { name := ← unh name }⟩
   let ops ← parseBScript mk script
-  let (outs, ob) ← runBuilder b ops
+  let (outs, ob) ← runBuilder b ops (rebuildOf io)
   let pre := if outs.isEmpty then "" else " | ".intercalate outs ++ " | "
   match ob with
   | none => return pre ++ "b=ABORT"
@@ -436,7 +458,16 @@ def opBuild {τ ε ε' τ' : Type} (io : ShapeIO τ ε) (mk : String → M τ) (
     | .ok p =>
       let s1 ← displayM io.typeStr p
       let r2 ← liftRes (re.parse s1)
-      o := o ++ " s=" ++ hS s1 ++ " p2=" ++ showRes re.typeStr re.full r2
+      -- the value against the value parsed from its own canonical string (==, hash, cmp all follow the fields)
+      let pe ← if hasParser then (do
+          match ← liftRes (io.parse s1) with
+          | .ok q =>
+            if io.beq q p then pure "T"
+            else
+              let sq ← displayM io.typeStr q
+              pure (if sq == s1 then "F" else "D")
+          | .error _ => pure "E") else pure "NA"
+      o := o ++ " s=" ++ hS s1 ++ " p2=" ++ showRes re.typeStr re.full r2 ++ " pe=" ++ pe
       let rb ← liftRes (io.build p)
       o := o ++ " rb=" ++ showRes io.typeStr io.full rb
       match rb with
@@ -469,7 +500,7 @@ def valueOf {τ ε : Type} (io : ShapeIO τ ε) (mk : String → M τ) (src : St
   | "b" :: rest =>
     let b : GPurl τ := ⟨← mk (← argAt rest 0), { name := ← unh (← argAt rest 1) }⟩
     let ops ← parseBScript mk (← argAt rest 2)
-    let (_, ob) ← runBuilder b ops
+    let (_, ob) ← runBuilder b ops (rebuildOf io)
     match ob with
     | none => return none
     | some b =>
@@ -480,7 +511,7 @@ def valueOf {τ ε : Type} (io : ShapeIO τ ε) (mk : String → M τ) (src : St
     -- the built value's canonical string, parsed again
     let b : GPurl τ := ⟨← mk (← argAt rest 0), { name := ← unh (← argAt rest 1) }⟩
     let ops ← parseBScript mk (← argAt rest 2)
-    let (_, ob) ← runBuilder b ops
+    let (_, ob) ← runBuilder b ops (rebuildOf io)
     match ob with
     | none => return none
     | some b =>
@@ -655,6 +686,28 @@ def opSerde (rest : List String) : M String := do
       | .error (.panic _) => throw "PANIC"
       | .error (.err _) => return "ERR:serde"
     | _ => return "NA"
+  | "dip" =>
+    -- `deserialize_in_place` over an existing value: what the place held before does not matter
+    let old ← unh (← argAt rest 2)
+    let new ← unh (← argAt rest 3)
+    match shape with
+    | "S" =>
+      match ← liftRes (parseS U old) with
+      | .error _ => return "NOPLACE"
+      | .ok _ =>
+        match de (parseS U) (.str new) with
+        | .ok p => return "OK:" ++ showPurl id p
+        | .error (.panic _) => throw "PANIC"
+        | .error (.err _) => return "ERR:serde"
+    | "P" =>
+      match ← liftRes (parseP U old) with
+      | .error _ => return "NOPLACE"
+      | .ok _ =>
+        match de (parseP U) (.str new) with
+        | .ok p => return "OK:" ++ showPurl PkgType.name p
+        | .error (.panic _) => throw "PANIC"
+        | .error (.err _) => return "ERR:serde"
+    | _ => return "NA"
   | "dev" =>
     -- one value of serde's data model, not through JSON
     let kind ← argAt rest 2
@@ -731,8 +784,8 @@ def dispatch (line : String) : M String := do
     match sh with
     | "S" => opBuild ioS mkStrTy ioS ty name script
     | "M" => opBuild ioM mkStrTy ioS ty name script
-    | "CB" => opBuild ioC mkCowB ioS ty name script
-    | "CO" => opBuild ioC mkCowO ioS ty name script
+    | "CB" => opBuild ioC mkCowB ioS ty name script false
+    | "CO" => opBuild ioC mkCowO ioS ty name script false
     | "P" => opBuild ioP mkPkg ioP ty name script
     | _ => return "NA"
   | ["quals", script] => opQuals script
